@@ -242,6 +242,8 @@ inductive Subtable where
   | gpos2_1 (pairs : List ((Nat × Nat) × PairAdj))
   /-- coverage set (ascending), class tables as (glyph, class) sorted by glyph, adjust matrix -/
   | gpos2_2 (cov : List Nat) (class1 class2 : List (Nat × Nat)) (adjust : List (List PairAdj))
+  /-- cursive attachment: coverage (ascending) and entry/exit anchors `(x1, y1, x2, y2)` -/
+  | gpos3_1 (cov : List Nat) (recs : List (Int × Int × Int × Int))
 deriving Repr, DecidableEq
 
 structure Lookup where
@@ -544,6 +546,50 @@ def readGpos2 (f : Font) (fuel : Nat) : PM Lookup := do
   let subs ← subtablesLoop (gpos2Sub f fuel) fuel []
   pure { typ := 2, flags := flags, subtables := subs }
 
+/-! ### GPOS 3 (cursive attachment) -/
+
+def kwTo : List Nat := [116, 111]
+#guard kwTo == lit "to"
+
+/-- `readGlyph`: a glyph list of exactly one glyph -/
+def readGlyph (f : Font) (fuel : Nat) : PM Nat := do
+  let gids ← readGlyphList f fuel
+  if gids.length == 0 then fatal "expected glyph, got"
+  else if gids.length > 1 then fatal "expected single glyph"
+  else pure (gids.headD 0)
+
+/-- records separated by `;` (and an optional line break) -/
+def semiLoop {σ : Type} (one : σ → PM σ) : Nat → σ → PM σ
+  | 0, _ => throw { line := 0, cls := errFuel }
+  | fuel + 1, st => do
+    let st' ← one st
+    if !(← optional [tSemicolon]) then pure st'
+    else do
+      let _ ← optional [tEOL]
+      semiLoop one fuel st'
+
+/-- one subtable of `readGpos3`: `glyph: x,y to x,y {; glyph: …}`; a later record for the same
+glyph replaces the earlier one (Go map) -/
+def gpos3Sub (f : Font) (fuel : Nat) : PM Subtable := do
+  let res ← semiLoop (fun (m : List (Nat × (Int × Int × Int × Int))) => do
+    let gid ← readGlyph f fuel
+    let _ ← optional [tColon]
+    let x1 ← readInt16
+    let _ ← required tComma
+    let y1 ← readInt16
+    requiredIdentifier kwTo
+    let x2 ← readInt16
+    let _ ← required tComma
+    let y2 ← readInt16
+    pure (aset m gid (x1, y1, x2, y2))) fuel []
+  let cov := keysAsc res
+  pure (.gpos3_1 cov (cov.map fun g => (aget res g).getD (0, 0, 0, 0)))
+
+def readGpos3 (f : Font) (fuel : Nat) : PM Lookup := do
+  let flags ← header fuel
+  let subs ← subtablesLoop (gpos3Sub f fuel) fuel []
+  pure { typ := 3, flags := flags, subtables := subs }
+
 /-- outcome of the forms this file does not model: the driver reports `unmodelled` -/
 def unmodelled : String := "model-unmodelled-form"
 
@@ -568,7 +614,9 @@ def parseLoop (f : Font) (fuel : Nat) : Nat → List Lookup → PM (List Lookup)
       let l ← readGpos1 f fuel; parseLoop f fuel n (acc ++ [l])
     else if isIdent item (kwGPOS 2) then do
       let l ← readGpos2 f fuel; parseLoop f fuel n (acc ++ [l])
-    else if [kwGSUB 5, kwGSUB 6, kwGPOS 3, kwGPOS 4].any
+    else if isIdent item (kwGPOS 3) then do
+      let l ← readGpos3 f fuel; parseLoop f fuel n (acc ++ [l])
+    else if [kwGSUB 5, kwGSUB 6, kwGPOS 4].any
         (isIdent item) then throw { line := 0, cls := unmodelled }
     else fatal "unexpected"
 
